@@ -64,7 +64,8 @@ Print Assumptions C01_closing_preserves_paths.
 (* header unification, for ALL graphs (no bound): insert_block_and_control_blocks keeps every walk.
    Over the model Edits2.insert_cb (tied to the code by the order-exact correspondence of C14 and by
    the pipeline model): for every flat graph of original and synthetic blocks whose targets exist,
-   every choice of predecessors that are not branching synthetic blocks (distinct successors),
+   every choice of predecessors with distinct successors (original blocks, plain, assigning and
+   branching synthetic blocks whose tables have distinct keys - their tables are rewritten, Model/TableSpec.v),
    successors S among the blocks, fresh assignment names, a fresh head and a control variable no
    block mentions: from every original block, under every decision list and every pair of
    environments that agree outside the new variable, the flat walk of the edited graph visits the
@@ -75,7 +76,8 @@ Theorem C01_header_unification_preserves_paths :
     (NoDup names /\ forall a, In a names ->
         efind g a = None /\ a <> new /\ ~ In a preds /\ ~ In a Ss /\ a <> top) ->
     (forall p b, In p preds -> efind g p = Some b ->
-        NoDup (e_jt b) /\ (forall a, In a names -> ~ In a (e_jt b)) /\ (forall c v t, e_kind b <> EBranch c v t)) ->
+        NoDup (e_jt b) /\ (forall a, In a names -> ~ In a (e_jt b)) /\
+        (forall c v t, e_kind b = EBranch c v t -> NoDup (map fst t))) ->
     ~ In top (ekeys g) /\ top <> new ->
     efind g new = None ->
     (forall x b t, efind g x = Some b -> In t (e_jt b) -> In t (ekeys g)) ->
